@@ -305,3 +305,27 @@ func (c *Conc) ExtraTrivial() map[string]int {
 	}
 	return out
 }
+
+// Ret is one return path of a call made with CallRets.
+type Ret struct {
+	C    *Conc // view on the state at that return (path condition = the path's)
+	Vals []Val
+}
+
+// CallRets is like Call but also hands back every return path separately (unmerged), so that a
+// driver can look at the success path without the error paths' garbage mixed in.
+func (c *Conc) CallRets(ref string, args ...Val) (rets []Ret, err error) {
+	c.X.keepRets = true
+	defer func() { c.X.keepRets = false }()
+	_, err = c.Call(ref, args...)
+	if err != nil {
+		return nil, err
+	}
+	for _, r := range c.X.lastRets {
+		v := &Conc{X: c.X, St: r.st}
+		v.E = c.X.newEnv(r.st, nil, nil)
+		rets = append(rets, Ret{C: v, Vals: r.vals})
+	}
+	c.X.lastRets = nil
+	return rets, nil
+}
